@@ -99,6 +99,15 @@ def run(ctx):
     seeds = [ctx.seed] if ctx.quick else [ctx.seed, ctx.seed + 1000, ctx.seed + 2000]
     for s in seeds:
         lines += common.harness_gen(harness, ["rand", s, nrand // len(seeds)])
+    # rows given in pieces of one y that abut exactly / with a gap / overlapping, each piece with its own orientation, in either order in rows(),
+    # the seam free or under a movable cell / a fixed non-obstruction / a fixed obstruction (over it, ending or starting exactly at it) / an extra
+    # obstacle: through Circuit::computeRows; every returned segment is attributed to ONE row and judged against it (harness verdict, per row)
+    nseam = 20000 if ctx.quick else 600000
+    seam_lines = []
+    for s in seeds:
+        seam_lines += common.harness_gen(harness, ["seam", s, nseam // len(seeds)])
+    lines += seam_lines
+    seam_set = set(seam_lines)
     # sequence stream: one Circuit edited by the public setters and queried after every step; every (public state at that
     # moment, answer) pair becomes an ordinary one-shot CR case (the model is a pure function of the state)
     nseq = 1500 if ctx.quick else 60000
@@ -121,6 +130,8 @@ def run(ctx):
         else:
             res, verd = i, "BAD no result (abort/throw/crash): " + i
         if verd != "OK":
+            if l.startswith("CR") and " # " in i:
+                verd += " (per row: %s)" % state_verdict(l, res.strip())
             ofail.append((l, i, verd))
         if res.strip() != m.strip():
             mism.append((l, res, m))
@@ -129,6 +140,11 @@ def run(ctx):
         if l.startswith("FS"):
             bare = " ".join(toks[1:6])
             if res.strip() != bare and int(toks[2]) > int(toks[1]):
+                nontriv.add(l)
+        elif l in seam_set:
+            rws = parse_cr(l)[0]
+            # non-trivial: two pieces of one y abut exactly with different orientations and something is returned
+            if res.strip() and any(a[2:4] == b[2:4] and a[1] == b[0] and a[4] != b[4] and a[0] < a[1] and b[0] < b[1] for a in rws for b in rws):
                 nontriv.add(l)
     # the answers given inside the sequences, judged on the state they were given for
     fresh = dict(zip(lines[noneshot:], zip(impl[noneshot:], model[noneshot:])))
@@ -181,7 +197,14 @@ def run(ctx):
                 "evaluations": len(lines) + len(seen), "distinct_nontrivial": len(nontriv) + len(seq_nontriv),
                 "rule": "exhaustive grid: rows [0,w)x[0,h), w<=%d, h<=%d, every ordered selection of up to %d obstacles with corners on the grid "
                         "[-1,w+1]x[-1,h+1] (degenerate ones included); random: Row::freespace and Circuit::computeRows (extra obstacles, cells with all "
-                        "fixed/obstruction flag combinations, 8 orientations) up to scale 2^18. sequences: ONE Circuit (1-4 stacked rows, 1-6 cells, 0-3 nets, "
+                        "fixed/obstruction flag combinations, 8 orientations) up to scale 2^18. seams (tag CR, Circuit::computeRows with and without extra obstacles): 1-3 "
+                        "bands each given as 1-3 rows of the SAME y that abut exactly (75 %%: one ends at X, the next starts at X), leave a gap of 1 / one site or "
+                        "overlap by one site (5 %%), every piece with an orientation of its own (different from its neighbour's in >= 70 %%), listed in rows() left to right, right to left or "
+                        "shuffled; each seam X is free, or lies under a movable cell, a fixed cell that is no obstruction, a fixed obstruction (over X, ending "
+                        "exactly at X, starting exactly at X; row-high or two rows high; 8 orientations) or an extra obstacle, + 0-3 random cells and 0-1 random "
+                        "extra obstacles, scale up to 2^18; every returned segment is attributed to ONE row of rows() in order and judged against THAT row (inside "
+                        "it, full height, its orientation, no obstruction, every free column of the row covered). sequences: ONE Circuit (1-4 stacked rows, 30 %% of "
+                        "them given as two pieces of one y that abut exactly / with a gap, own orientations, either order; 1-6 cells, 0-3 nets, "
                         "0-2 extra obstacles, scale up to 2^18) edited by 3-12 steps drawn from the real public setters setCellX/Y/Width/Height/"
                         "Orientation (one cell or all), setCellIsFixed/setCellIsObstruction (one cell or all; set, clear, toggle), setSolution, setRows "
                         "(edit/drop/add a row), setupRows, addNet, setNets, copy assignment, in random order with repetition; after every step (15 %% of "
@@ -190,7 +213,7 @@ def run(ctx):
                         "is paired with the public state read through the getters at that moment and judged as a one-shot CR case: equality with the "
                         "model of that state, the column-by-column statement on that state, and a freshly built circuit with that state. non-trivial "
                         "= the obstacles change the row(s); distinct = distinct case lines (sequences: distinct (state, answer) pairs)" % grid,
-                "exhaustive": True, "grid_cases": ngrid, "kinds": kinds,
+                "exhaustive": True, "grid_cases": ngrid, "kinds": kinds, "seam_cases": len(seam_set),
                 "samples": [lines[ngrid // 2], lines[ngrid + 3], lines[noneshot - 1]] + ([recs[-1].case] if recs else []),
                 "sequence_stream": dict(seqstats, distinct_state_answer_pairs=len(seen), nontrivial_states=len(seq_nontriv),
                                         answers_differing_from_model=len(seq_mism), answers_violating_statement=len(seq_bad),
@@ -200,7 +223,8 @@ def run(ctx):
                                    "FreeSpace.v is a specification tested equal to the code (boost::polygon's slicing is not modelled); the theorems are about freespace_iv on one row, nothing is proved at compute_rows / Circuit level; 'ignored cells' restates a definition and rests on the tie",
                                    "specification tied to the code by exact comparison on the cases of this run",
                                    "sequence stream: the circuit's state is what its public getters return (nets: what the harness itself set, "
-                                   "cross-checked with nbNets/nbPinsNet/pinCell); rows of a sequence are disjoint in y"])
+                                   "cross-checked with nbNets/nbPinsNet/pinCell); rows of a sequence are stacked, some given as two pieces of one y (abutting / with a gap; row edits may make two pieces overlap)",
+                                   "segments are attributed to rows greedily in the order of rows() (a segment belongs to the current row while it lies inside it, right of the previous one); a segment that fits no row in order is a violation"])
 
 
 def replay(ctx, path):
